@@ -49,3 +49,11 @@ Proof. vm_compute. repeat split. Qed.
 Definition rt_ok (p : spkt) : bool := toks_eqb (show_sf (decode_sf (encode_sf p))) (show_sf (Ok p)).
 Example c04_roundtrip_eval : forallb rt_ok (map (gcase gen_spkt 1) [0;1;2;3;4;5;6;7;8;9]) = true.
 Proof. vm_compute. reflexivity. Qed.
+
+(* the shapes the record decoder of the model reads (how many 32-bit words, where the addresses, strings and
+   lists stand, the 32/64-bit widths of the interface counters) ARE the record structs of
+   decoders/sflow/datastructure.go, regenerated from the source on every build (Spec/DocTable.v sflow_structs) *)
+From GF Require Import Spec.DocCheck2.
+Theorem c04_layouts_are_the_go_structs : sflow_layout_ok = true.
+Proof. vm_compute. reflexivity. Qed.
+Print Assumptions c04_layouts_are_the_go_structs.
